@@ -12,6 +12,7 @@ import (
 	"reflect"
 	"runtime"
 	"strconv"
+	"strings"
 	"sync"
 	"time"
 )
@@ -264,13 +265,15 @@ func cmdConc(args []string) int {
 	gor := fs.Int("goroutines", 32, "")
 	out := fs.String("out", "", "summary JSON")
 	trace := fs.String("trace", "", "ndjson trace of the calls (hist)")
+	order := fs.String("order", "all", "hist: all (given+shuffled+reversed in one process) | given | reversed | shuffled (one order in a fresh process)")
+	dump := fs.String("dump", "", "hist: write the result of every distinct call (JSON) for comparison across processes")
 	_ = fs.Parse(args[1:])
 	var summary map[string]interface{}
 	switch mode {
 	case "stress":
 		summary = concStress(*seed, *n, *gor)
 	case "hist":
-		summary = concHist(*seed, *n, *trace)
+		summary = concHist(*seed, *n, *trace, *order, *dump)
 	default:
 		return 2
 	}
@@ -281,6 +284,17 @@ func cmdConc(args []string) int {
 		os.Stdout.Write(b)
 	}
 	return 0
+}
+
+func lowerAll(l []string) []string {
+	if l == nil {
+		return nil
+	}
+	out := make([]string, len(l))
+	for i, s := range l {
+		out[i] = strings.ToLower(s)
+	}
+	return out
 }
 
 type wlCall struct {
@@ -375,7 +389,19 @@ func concStress(seed int64, n, gor int) map[string]interface{} {
 
 // concHist: one goroutine, a history of calls with repeats, then the same calls in a shuffled order:
 // every call must return exactly what its first occurrence returned (incl. the order of ExtractLicenses' output).
-func concHist(seed int64, n int, tracePath string) map[string]interface{} {
+func swapCase(s string) string {
+	b := []byte(s)
+	for i, c := range b {
+		if c >= 'a' && c <= 'z' {
+			b[i] = c - 32
+		} else if c >= 'A' && c <= 'Z' {
+			b[i] = c + 32
+		}
+	}
+	return string(b)
+}
+
+func concHist(seed int64, n int, tracePath, order, dumpPath string) map[string]interface{} {
 	g := newGen(seed)
 	type hc struct {
 		fn string
@@ -395,6 +421,14 @@ func concHist(seed int64, n int, tracePath string) map[string]interface{} {
 			c = hc{"ValidateLicenses", "", []string{g.expr(2, pool, true), g.mutate(g.expr(2, pool, true)), g.term(pool, true)}}
 		}
 		distinct = append(distinct, c)
+		// twins that differ from an earlier call only in letter case (operators, Ref names and ids): a
+		// result remembered under a case-folded key would leak from one to the other
+		switch g.rng.Intn(4) {
+		case 0:
+			distinct = append(distinct, hc{c.fn, strings.ToLower(c.e), lowerAll(c.a)})
+		case 1:
+			distinct = append(distinct, hc{c.fn, swapCase(c.e), c.a})
+		}
 	}
 	run := func(c hc) Obs {
 		switch c.fn {
@@ -431,15 +465,36 @@ func concHist(seed int64, n int, tracePath string) map[string]interface{} {
 			}
 		}
 	}
-	pass(hist, "given order")
 	sh := append([]int{}, hist...)
 	g.rng.Shuffle(len(sh), func(i, j int) { sh[i], sh[j] = sh[j], sh[i] })
-	pass(sh, "shuffled order")
 	rev := make([]int, len(hist))
 	for i := range hist {
 		rev[i] = hist[len(hist)-1-i]
 	}
-	pass(rev, "reversed order")
+	switch order {
+	case "given":
+		pass(hist, "given order")
+	case "reversed":
+		pass(rev, "reversed order")
+	case "shuffled":
+		pass(sh, "shuffled order")
+	default:
+		pass(hist, "given order")
+		pass(sh, "shuffled order")
+		pass(rev, "reversed order")
+	}
+	if dumpPath != "" {
+		res := map[string]Obs{}
+		for k, o := range first {
+			res[strconv.Itoa(k)] = o
+		}
+		calls := make([]map[string]interface{}, len(distinct))
+		for i, c := range distinct {
+			calls[i] = map[string]interface{}{"fn": c.fn, "e": c.e, "a": c.a}
+		}
+		b, _ := json.Marshal(map[string]interface{}{"results": res, "calls": calls})
+		os.WriteFile(dumpPath, b, 0o644)
+	}
 	outBytes := int64(0)
 	if capt != nil {
 		outBytes = capt.stop()
